@@ -91,9 +91,10 @@ def find_const_literal(f):
     return c.get("lit") if c else None
 
 
-def eval_register(f, n, same_idx, exists=1):
+def eval_register(f, n, same_idx, exists=1, other=0):
     """register_useful_peer evaluated (K6') against a peers table holding n rows (oldest first), row
-    `same_idx` (or none) belonging to the peer being registered. Store::modify runs the transaction body.
+    `same_idx` (or none) belonging to the peer being registered, while other documents hold `other` rows of the same
+    table (the table is shared by all documents: its own len() counts them too). Store::modify runs the transaction body.
     Returns (rendered result, effect log)."""
     from . import feval as E
     types = tables.table_types(f)
@@ -125,6 +126,10 @@ def eval_register(f, n, same_idx, exists=1):
         if ct and ct[1] in tables.WRITE_OPS:
             log.append((ct[1] if ct[0] == NP else "%s.%s" % ct[:2], names[1:]))
             return E.Ok(E.Int(0))
+        if ct and ct[0] == NP and ct[1] in ("len", "is_empty"):
+            # the whole table: this document's rows as written so far plus every other document's
+            cur = n + other + sum(1 for e in log if e[0] == "insert") - sum(1 for e in log if e[0] == "remove")
+            return E.Ok(E.Int(cur)) if ct[1] == "len" else E.Ok(E.Int(1 if cur == 0 else 0))
         if name == "next" and names and names[0] == "rows":
             i = st["i"]
             st["i"] += 1
@@ -169,9 +174,9 @@ def r2(ctx):
     ctx.touch(outer, b)
     SIZE = find_const_literal(f) or 5
     n_cells = 0
-    for n in range(0, SIZE + 1):
-        for j in [None] + list(range(n)):
-            got, log = eval_register(f, n, j)
+    for n, j, other in [(n, j, 0) for n in range(0, SIZE + 1) for j in [None] + list(range(n))] + [(n, j, SIZE + 2) for n in (0, 1, SIZE) for j in ([None, 0] if n else [None])]:
+        if True:
+            got, log = eval_register(f, n, j, other=other)
             n_cells += 1
             rows = ["row%d" % i for i in range(n)]
             want = [r for i, r in enumerate(rows) if i != j] + ["new"]
@@ -201,7 +206,7 @@ def r2(ctx):
             if ("exists?", ["b(namespace)"]) not in log:
                 problems.append("document existence not checked for this namespace")
             ok = got == "Ok(())" and not problems and sorted(final) == sorted(want)
-            ctx.check(ok, "C17.R2", RUP, "register[size=%d,previous-row=%s]" % (n, "none" if j is None else j),
+            ctx.check(ok, "C17.R2", RUP, "register[size=%d,previous-row=%s%s]" % (n, "none" if j is None else j, ",other-documents-hold-%d-rows" % other if other else ""),
                       "returns %s; table after: %s; spec (bounded most-recently-used list of %d): %s; %s" % (got, sorted(final), SIZE, sorted(want), "; ".join(problems) or "effects " + str(log[2:])), b.sp)
     got, log = eval_register(f, 2, None, exists=0)
     writes = [e for e in log if e[0] in ("insert", "remove") or "." in e[0]]
